@@ -251,6 +251,7 @@ theorem tsInner_spec : ∀ (fuel t i k : Nat), t < p → k ≤ fuel → (t : ZMo
           rw [Nat.succ_eq_add_one, pow_two_pow_succ, ← cast_mulmod]
           exact hj4 l' (by omega)
 
+omit hpf in
 theorem tsInner_zero : ∀ (fuel i : Nat), tsInner fuel p 0 i = i + fuel := by
   intro fuel
   induction fuel with
